@@ -6,5 +6,5 @@ git -C /repo apply "$P" || exit 2
 trap 'git -C /repo checkout -- .' EXIT
 export VERIF_EVIDENCE_DIR=$(mktemp -d /tmp/ev_scratch.XXXX)
 cd /verif
-for prop in ${@:-all}; do ./check $prop | grep -E "^\[C|VIOLATION|^  |ERROR" | cut -c1-330; done
+for prop in ${@:-all}; do ./check $prop | grep -E "^\[C|VIOLATION|^  |ERROR|UNDETERMINED" | cut -c1-330; done
 rm -rf "$VERIF_EVIDENCE_DIR"
